@@ -5,7 +5,10 @@ cd /verif
 git -C /repo diff --quiet || { echo "/repo dirty"; exit 2; }
 git -C /repo apply --3way /verif/seeded/$name/patch.diff 2>/tmp/apply.err || git -C /repo apply /verif/seeded/$name/patch.diff || { echo "PATCH DOES NOT APPLY"; cat /tmp/apply.err; git -C /repo reset -q --hard HEAD; exit 2; }
 for c in "$@"; do
+  # the evidence file describes the unchanged tree: keep it out of the way of this run
+  [ -f evidence/$c.json ] && cp evidence/$c.json /tmp/seedcheck-evidence-$c.json
   ./run $c ${TIER:-quick} > /tmp/seedcheck-$name-$c.log 2>&1; rc=$?
+  if [ -f /tmp/seedcheck-evidence-$c.json ]; then mv /tmp/seedcheck-evidence-$c.json evidence/$c.json; else rm -f evidence/$c.json; fi
   echo "seed=$name check=$c exit=$rc violations=$(grep -c '^VIOLATION' /tmp/seedcheck-$name-$c.log)"
   grep -A2 '^VIOLATION' /tmp/seedcheck-$name-$c.log | head -9
 done
